@@ -45,6 +45,12 @@ type Result struct {
 	Compiled   bool
 	CompileErr string
 	Ran        bool
+	CheckRan   bool     // wire check was run on the same tree
+	CheckDiags []string // diagnostics of wire check attributed to this case (normalised)
+	ShowOut    string   // stdout of wire show for this case's packages (normalised)
+	ShowDiags  []string
+	ShowRan    bool
+	TreeChangedBy string // a read-only command that changed the case's directory
 	NotRun     bool        // skipped by fail-fast
 	Judged     bool
 	Verdict    []Violation // filled by RunAll
@@ -54,6 +60,9 @@ type Result struct {
 
 // Root returns the root package result (never nil).
 func (r *Result) Root() *PkgResult {
+	if r == nil {
+		return &PkgResult{}
+	}
 	if p := r.Pkgs[""]; p != nil {
 		return p
 	}
@@ -96,6 +105,8 @@ type Runner struct {
 	Workers    int
 	GenTimeout time.Duration
 	SoloTimeout time.Duration
+	AlsoCheck   bool // additionally run `wire check ./...` on the same tree
+	AlsoShow    bool // additionally run `wire show ./...` on the same tree
 	ExtraGen   []string // extra args for wire gen (before patterns)
 	Cmd        string   // wire subcommand (default gen)
 
@@ -132,7 +143,11 @@ func (rn *Runner) RunAll(cases []*Case) []*Result {
 			defer wg.Done()
 			for j := range jobs {
 				if rn.stopped() {
-					continue // fail fast: enough violation candidates; remaining cases are not run
+					// fail fast: enough violation candidates; remaining cases are not run
+					for i := j.lo; i < j.hi; i++ {
+						results[i] = &Result{Case: cases[i], NotRun: true, Pkgs: map[string]*PkgResult{}, GenSrc: map[string]string{}}
+					}
+					continue
 				}
 				rs := rn.runBatch(cases[j.lo:j.hi])
 				for _, r := range rs {
@@ -358,9 +373,161 @@ func (rn *Runner) runBatch(cases []*Case) []*Result {
 	for _, r := range results {
 		rn.readOutputs(mod, r)
 	}
+	if rn.AlsoCheck || rn.AlsoShow {
+		rn.runReadOnly(mod, results)
+	}
 	// Gen-stage done; compile and run accepted cases that ask for it.
 	rn.compileAndRun(mod, results)
 	return results
+}
+
+var reCaseDir = regexp.MustCompile(`/(c\d{5})(/|\b)`)
+
+// attributeByPath assigns each diagnostic (a "wire: " message with continuation lines)
+// to the case whose directory its first path mentions.
+func attributeByPath(stderr string) (map[string][]string, []string) {
+	by := map[string][]string{}
+	var rest []string
+	var msgs []string
+	var cur *strings.Builder
+	for _, line := range strings.Split(stderr, "\n") {
+		if line == "" || strings.HasPrefix(line, "Warning: ") {
+			continue
+		}
+		if strings.HasPrefix(line, "wire: ") {
+			if cur != nil {
+				msgs = append(msgs, cur.String())
+			}
+			cur = &strings.Builder{}
+			cur.WriteString(strings.TrimPrefix(line, "wire: "))
+			continue
+		}
+		if cur != nil {
+			cur.WriteByte('\n')
+			cur.WriteString(line)
+		} else {
+			rest = append(rest, line)
+		}
+	}
+	if cur != nil {
+		msgs = append(msgs, cur.String())
+	}
+	for _, m := range msgs {
+		if m == "error loading packages" {
+			continue
+		}
+		if mm := reCaseDir.FindStringSubmatch(m); mm != nil {
+			by[mm[1]] = append(by[mm[1]], m)
+		} else {
+			rest = append(rest, m)
+		}
+	}
+	return by, rest
+}
+
+func dirHash(dir string) string { return ReadTree(dir).Hash() }
+
+// runReadOnly runs wire check / wire show on the batch and attributes their output.
+func (rn *Runner) runReadOnly(mod string, results []*Result) {
+	norm := func(s, dir string) string {
+		s = strings.ReplaceAll(s, mod+"/"+dir+"/", "")
+		s = strings.ReplaceAll(s, ModPath+"/"+dir, "{{ROOT}}")
+		s = strings.ReplaceAll(s, mod+"/", "")
+		return s
+	}
+	byDir := map[string]*Result{}
+	for _, r := range results {
+		byDir[r.Case.Dir] = r
+	}
+	for _, sub := range []string{"check", "show"} {
+		if (sub == "check" && !rn.AlsoCheck) || (sub == "show" && !rn.AlsoShow) {
+			continue
+		}
+		before := dirHash(mod)
+		res := RunLimited(mod, rn.wireEnv(), rn.GenTimeout, WireMemKB, rn.S.Wire, sub, "./...")
+		rn.mu.Lock()
+		rn.WireRuns++
+		rn.mu.Unlock()
+		changed := dirHash(mod) != before
+		soloAll := res.TimedOut || rePanic.MatchString(res.Stderr)
+		var by map[string][]string
+		if !soloAll {
+			var rest []string
+			by, rest = attributeByPath(res.Stderr)
+			if len(rest) > 0 {
+				soloAll = true
+			}
+		}
+		if soloAll {
+			for _, r := range results {
+				b := dirHash(filepath.Join(mod, r.Case.Dir))
+				sr := RunLimited(mod, rn.wireEnv(), rn.SoloTimeout, WireMemKB, rn.S.Wire, sub, "./"+r.Case.Dir+"/...")
+				rn.mu.Lock()
+				rn.WireRuns++
+				rn.mu.Unlock()
+				if dirHash(filepath.Join(mod, r.Case.Dir)) != b {
+					r.TreeChangedBy = sub
+				}
+				var diags []string
+				if sr.TimedOut || rePanic.MatchString(sr.Stderr) {
+					diags = []string{"CRASH: " + norm(tail(sr.Stderr, 1500), r.Case.Dir)}
+				} else {
+					m, rest := attributeByPath(sr.Stderr)
+					for _, d := range m[r.Case.Dir] {
+						diags = append(diags, norm(d, r.Case.Dir))
+					}
+					for _, d := range rest {
+						diags = append(diags, norm(d, r.Case.Dir))
+					}
+					if sr.Exit != 0 && len(diags) == 0 {
+						diags = []string{"exit status " + fmt.Sprint(sr.Exit) + " without diagnostics"}
+					}
+				}
+				if sub == "check" {
+					r.CheckRan, r.CheckDiags = true, diags
+				} else {
+					r.ShowRan, r.ShowDiags, r.ShowOut = true, diags, norm(sr.Stdout, r.Case.Dir)
+				}
+			}
+			continue
+		}
+		// split show's stdout per case: blocks are separated by blank lines and start with "<import path>".<Var>
+		showBy := map[string]string{}
+		if sub == "show" {
+			for _, blk := range strings.Split(res.Stdout, "\n\n") {
+				blk = strings.Trim(blk, "\n")
+				if blk == "" {
+					continue
+				}
+				if strings.HasPrefix(blk, "Injectors:") {
+					for _, l := range strings.Split(blk, "\n")[1:] {
+						if mm := reCaseDir.FindStringSubmatch(l); mm != nil {
+							showBy[mm[1]] += "INJECTOR " + strings.TrimSpace(l) + "\n"
+						}
+					}
+					continue
+				}
+				first := strings.SplitN(blk, "\n", 2)[0]
+				if mm := reCaseDir.FindStringSubmatch(first); mm != nil {
+					showBy[mm[1]] += blk + "\n\n"
+				}
+			}
+		}
+		for _, r := range results {
+			var diags []string
+			for _, d := range by[r.Case.Dir] {
+				diags = append(diags, norm(d, r.Case.Dir))
+			}
+			if changed {
+				r.TreeChangedBy = sub
+			}
+			if sub == "check" {
+				r.CheckRan, r.CheckDiags = true, diags
+			} else {
+				r.ShowRan, r.ShowDiags, r.ShowOut = true, diags, norm(showBy[r.Case.Dir], r.Case.Dir)
+			}
+		}
+	}
 }
 
 func (rn *Runner) readOutputs(mod string, r *Result) {
